@@ -68,6 +68,10 @@ pub struct SearchRun {
     pub stopped: bool,
     /// the caller's game differs after the call
     pub game_changed: Option<String>,
+    /// poll counts at which the driver printed its `info depth` lines (iteration boundaries)
+    pub iter_marks: Vec<u64>,
+    /// polls made one ply below the root (and the first three two plies below after each)
+    pub shallow_polls: Vec<u64>,
 }
 
 #[derive(Clone, Debug)]
@@ -115,6 +119,8 @@ pub fn run_search_flag(game: &Game, table: &mut TranspositionTable, cfg: &Search
         polls_after_stop: ctx.polls_after_stop,
         stopped: ctx.stopped,
         game_changed: if before != after { Some(diff_dump(&before, &after)) } else { None },
+        iter_marks: ctx.iter_marks,
+        shallow_polls: ctx.shallow_polls,
     }
 }
 
